@@ -24,6 +24,9 @@ pub struct Check {
     /// Some(n): the enumeration this check performs is complete once run indexes 0..n have
     /// run (quick tier); reported as `exhaustive`
     pub exhaustive_after: Option<u64>,
+    /// "this rare condition was hit" probes the batch is expected to reach; one that stays at zero
+    /// is reported in the evidence (the workload or fault mix would have to change)
+    pub probes: &'static [&'static str],
 }
 
 pub struct RunReport {
@@ -417,7 +420,8 @@ pub fn run_check(check: &Check, thorough: bool, seed: u64) -> i32 {
         counters.iter().filter(|(k, _)| k.starts_with(prefix)).map(|(k, v)| (k[prefix.len()..].to_string(), json!(v))).collect()
     };
     let probes = pick("probe.");
-    let stuck: Vec<String> = Vec::new();
+    let stuck: Vec<String> = check.probes.iter().filter(|p| counters.get(&format!("probe.{p}")).copied().unwrap_or(0) == 0).map(|p| p.to_string()).collect();
+    if !stuck.is_empty() { println!("zksim: probes stuck at zero: {stuck:?}"); }
     let exhaustive = !thorough && check.exhaustive_after.map(|n| n_runs >= n && !batch.truncated).unwrap_or(false)
         || thorough && check.exhaustive_after.map(|n| n_runs >= n).unwrap_or(false);
     let ev = json!({
